@@ -2,6 +2,7 @@ package builder
 
 import (
 	"fmt"
+	"sort"
 	"strings"
 
 	"github.com/grafana/cog/internal/ast"
@@ -335,8 +336,16 @@ func ComposeBuilders(selector Selector, config CompositionConfig) RewriteRule {
 			composableBuilders[panelType] = append(composableBuilders[panelType], builder)
 		}
 
-		for panelType, buildersForType := range composableBuilders {
-			composedBuilders, err := composeBuilderForType(schemas, builders, config, panelType, sourceBuilder, buildersForType)
+		// types are visited in a defined order: the list of builders must not
+		// depend on the iteration order of the map
+		panelTypes := make([]string, 0, len(composableBuilders))
+		for panelType := range composableBuilders {
+			panelTypes = append(panelTypes, panelType)
+		}
+		sort.Strings(panelTypes)
+
+		for _, panelType := range panelTypes {
+			composedBuilders, err := composeBuilderForType(schemas, builders, config, panelType, sourceBuilder, composableBuilders[panelType])
 			if err != nil {
 				return nil, fmt.Errorf("could not apply ComposeBuilders builder veneer: %w", err)
 			}
